@@ -33,6 +33,37 @@ var fsmChildren = map[string][]string{
 func constStr(v ssa.Value) (string, bool) { return constString(v) }
 
 func runC23(c *Ctx) {
+	c.Rule("C23.PRIMARYREC", "DOM: recordedWriterStateLocked returns anything other than `primary` only where the node's ID was compared unequal to f.primaryWriterID — the record of the node the FSM names as primary writer is marked primary whatever else the re-registration says about it (role, address)")
+	if fn := c.P.Func("(*internal/cluster/raft.ClusterFSM).recordedWriterStateLocked"); fn != nil {
+		n := 0
+		for _, in := range instrs(fn, false) {
+			r, ok := in.(*ssa.Return)
+			if !ok || len(r.Results) != 1 {
+				continue
+			}
+			if sv, ok := constString(unspill(r, r.Results[0])); ok && sv == "primary" {
+				continue
+			}
+			n++
+			okNeq := false
+			for _, f := range factsAt(r) {
+				if f.Kind != factCmp || f.Op != token.NEQ {
+					continue
+				}
+				for _, pr := range [][2]ssa.Value{{f.X, f.Y}, {f.Y, f.X}} {
+					if sn, fld, _, ok := loadedField(pr[0]); ok && sn == "ClusterFSM" && fld == "primaryWriterID" {
+						if sn2, fld2, _, ok := loadedField(pr[1]); ok && sn2 == "NodeInfo" && fld2 == "ID" {
+							okNeq = true
+						}
+					}
+				}
+			}
+			c.Check(okNeq, "C23.PRIMARYREC", fmt.Sprintf("recordedWriterStateLocked|non-primary-return#%d", n), r.Pos(), "returned only for a node that is not the recorded primary", "recordedWriterStateLocked can return a state other than `primary` before (or without) comparing the node with f.primaryWriterID: when the recorded primary re-registers with another role its record loses `primary` while the FSM still names it as primary writer")
+		}
+		c.Check(n >= 1, "C23.PRIMARYREC", "recordedWriterStateLocked|returns", fn.Pos(), "returns inspected", "no non-primary return found")
+	} else {
+		c.Unk("C23.PRIMARYREC", "recordedWriterStateLocked|function", 0, "function not found")
+	}
 	c.Rule("C23.IDIOM", "PAIR: in the cluster FSM's apply functions, the two halves of a map idiom name the same map and key: a get-or-create stores the new set under the key it looked up, and a delete-when-empty removes the entry whose own set it found empty")
 	{
 		n := 0
